@@ -365,3 +365,74 @@ Proof.
   - intros Hin. apply K; [|exact Hin]. specialize (B hf Hin). apply Nat.ltb_lt in B. exact B.
   - intros Hi. apply K; [|exact Hi]. exact (incident_hf_bound s h hf Hi).
 Qed.
+
+(* ================================================================== reorder is idempotent on a fan *)
+(* (a step towards the history-level invariant: re-running reorder on an edge that is already in rotational
+   order changes nothing, so the extra reorder calls of delete_face_core / enable_* are harmless) *)
+
+Lemma reorder_write s e L :
+  reorder_list s e = Some L -> length L = length (hfs_at s (2 * e)) ->
+  length (hfs_at s (2 * e + 1)) = length (hfs_at s (2 * e)) -> 2 <= length L ->
+  hfs_at (reorder_incident_halffaces e s) (2 * e) = L /\
+  hfs_at (reorder_incident_halffaces e s) (2 * e + 1) = rev (map opp L).
+Proof.
+  intros HR HL Hlen1 Hbig. set (h := 2 * e) in *.
+  assert (Hh : h < length (inc_hfs s)).
+  { apply nth_nonnil_lt. intros E0. unfold hfs_at in HL. rewrite E0 in HL. simpl in HL. lia. }
+  assert (Hh1 : h + 1 < length (inc_hfs s)).
+  { apply nth_nonnil_lt. intros E0. unfold hfs_at in Hlen1 at 1. rewrite E0 in Hlen1. simpl in Hlen1. lia. }
+  unfold reorder_incident_halffaces. rewrite HR. fold h. unfold hfs_at. simpl inc_hfs. split.
+  - rewrite nth_upd_other by lia. apply nth_upd_same. exact Hh.
+  - rewrite nth_upd_same by (rewrite upd_length; exact Hh1).
+    rewrite map_length, rev_length.
+    replace (skipn (length L) (nth (h + 1) (inc_hfs s) [])) with (@nil nat).
+    + rewrite app_nil_r, map_rev. reflexivity.
+    + symmetry. apply skipn_all2. change (nth (h + 1) (inc_hfs s) []) with (hfs_at s (h + 1)). lia.
+Qed.
+
+Lemma reorder_state_links s e h x y :
+  (fwd_link (reorder_incident_halffaces e s) h x y <-> fwd_link s h x y) /\
+  (bwd_link (reorder_incident_halffaces e s) h x y <-> bwd_link s h x y).
+Proof. unfold reorder_incident_halffaces. destruct (reorder_list s e); split; reflexivity. Qed.
+
+Lemma reorder_state_open s e x : hf_is_open (reorder_incident_halffaces e s) x = hf_is_open s x.
+Proof. unfold reorder_incident_halffaces. destruct (reorder_list s e); reflexivity. Qed.
+
+Lemma linked_iff (R R' : nat -> nat -> Prop) l : (forall x y, R x y <-> R' x y) -> linked R l -> linked R' l.
+Proof. intros H. apply linked_impl_in. intros x y _. apply H. Qed.
+
+Theorem reorder_idempotent s e :
+  edge_cache_exact s e -> single_fan s e ->
+  let s' := reorder_incident_halffaces e s in
+  hfs_at (reorder_incident_halffaces e s') (2 * e) = hfs_at s' (2 * e) /\
+  hfs_at (reorder_incident_halffaces e s') (2 * e + 1) = hfs_at s' (2 * e + 1).
+Proof.
+  intros Hex Hfan. pose proof (reorder_post s e Hex Hfan) as [_ [Hmir [Hperm Hshape]]]. cbv zeta in *.
+  set (s' := reorder_incident_halffaces e s) in *. set (h := 2 * e) in *. set (L := hfs_at s' h) in *.
+  destruct Hex as [[Hnd _] [_ Hlen1]].
+  assert (HndL : NoDup L) by (apply (Permutation_NoDup (Permutation_sym Hperm)); exact Hnd).
+  destruct (Nat.lt_ge_cases (length L) 2) as [Hsmall|Hbig].
+  - assert (Hnone : reorder_list s' e = None).
+    { unfold reorder_list. fold h. fold L. destruct (Nat.ltb_spec (length L) 2); [reflexivity|lia]. }
+    assert (E : reorder_incident_halffaces e s' = s') by (unfold reorder_incident_halffaces at 1; rewrite Hnone; reflexivity).
+    rewrite E. split; reflexivity.
+  - destruct L as [|start tl] eqn:EL; [simpl in Hbig; lia|].
+    assert (Hlen1' : length (hfs_at s' (h + 1)) = length (hfs_at s' h)).
+    { rewrite Hmir. fold L. rewrite EL, rev_length, map_length. reflexivity. }
+    assert (HR : reorder_list s' e = Some (start :: tl)).
+    { destruct Hshape as [[Hl Hc]|[Hf [Hb [O1 O2]]]].
+      - destruct (reorder_list_cycle s' e [] start tl) as [HR _]; fold h; fold L; try rewrite EL; auto.
+        + split.
+          * simpl. apply (linked_iff (fwd_link s h)); [intros x y; symmetry; apply (reorder_state_links s e h x y)|exact Hl].
+          * simpl app. apply (reorder_state_links s e h). exact Hc.
+        + rewrite app_nil_r in HR. exact HR.
+      - apply (reorder_list_chain s' e [] start tl); fold h; fold L; try rewrite EL; auto.
+        split; [|split; [|split]].
+        + simpl. apply (linked_iff (fwd_link s h)); [intros x y; symmetry; apply (reorder_state_links s e h x y)|exact Hf].
+        + simpl. apply (linked_iff (bwd_link s h)); [intros x y; symmetry; apply (reorder_state_links s e h x y)|exact Hb].
+        + simpl app. unfold s'. rewrite reorder_state_open. exact O1.
+        + simpl app. unfold s'. rewrite reorder_state_open. exact O2. }
+    destruct (reorder_write s' e (start :: tl) HR) as [W0 W1]; fold h; fold L; try rewrite EL; auto.
+    + fold h in Hlen1'. fold L in Hlen1'. rewrite EL in Hlen1'. exact Hlen1'.
+    + fold h in W0, W1. rewrite W0, W1. split; [reflexivity|]. rewrite Hmir. reflexivity.
+Qed.
